@@ -161,10 +161,11 @@ def load_known_findings() -> list[dict]:
 
 def write_evidence(pid: str, tier: str, level: str, coverage: dict, wall: float, violations: int,
                    assumptions: list[str] | None = None) -> Path:
-    EVIDENCE.mkdir(exist_ok=True)
+    evdir = (WORK / "evidence-scratch") if os.environ.get("VERIF_NO_EVIDENCE") else EVIDENCE
+    evdir.mkdir(parents=True, exist_ok=True)
     ev = {"property_id": pid, "tier": tier, "seed": seed(), "level": level, "coverage": coverage,
           "assumptions": assumptions or [], "wall_s": round(wall, 2), "violations": violations}
-    p = EVIDENCE / f"{pid}.json"
+    p = evdir / f"{pid}.json"
     p.write_text(json.dumps(ev, indent=1, default=str) + "\n")
     return p
 
